@@ -73,6 +73,9 @@ func checkC12(c *Ctx) {
 	c.Rule("C12.4", "never early: Send is preceded by Sleep(1us*absTime - last) in the same call and the step returns 1us*absTime", 1)
 	c.Rule("C12.5", "file order in: the track iterator invokes the callback inside nested range loops over tracks then events", 1)
 
+	c.Rule("C12.6", "the schedule is the tempo map: the times the play list is built from follow the segment rule of the tick-to-time conversion, also with repeated tempo ticks (= C11.3)", 4)
+	c.include(checkC11, map[string]string{"C11.3": "C12.6"})
+
 	trT := p.namedType("smf", "TracksReader")
 	if trT == nil {
 		c.Unk("C12.1", "smf.TracksReader", "-", "not found")
